@@ -77,7 +77,7 @@ type evidOut = evidWorkerOut
 
 func lrEval(w *Worker, c *GCase, id string) {
 	w.Count("evaluations", 1)
-	g, _, vw, _ := buildUsable(w, c)
+	g, vw := buildUsableLoose(w, c)
 	if g == nil {
 		return
 	}
@@ -119,7 +119,7 @@ func lrEval(w *Worker, c *GCase, id string) {
 				violated = true
 				in := tokString(g, st.Prefix, st.Tok)
 				w.Violate(id+"|"+kind+"|"+mc.name+"|"+key, fmt.Sprintf("%s (%s table): grammar [%s], input [%s]: %s", kind, mc.name, key, in, msg), c,
-					map[string]interface{}{"grammar_text": c.Spec.Render(), "input": in, "table": mc.name, "what": msg, "reductions": redText(g, st.Res.Reds)})
+					map[string]interface{}{"grammar_text": c.Spec.Render(), "input": in, "table": mc.name, "what": msg, "reductions": redTextOf(g, vw, st.Res.Reds)})
 			}
 			if st.Res.Out == lrm.Accepted {
 				accepts++
@@ -128,9 +128,11 @@ func lrEval(w *Worker, c *GCase, id string) {
 			}
 			switch id {
 			case "C01":
-				if msg := checkDerivation(g, vw, st); msg != "" {
-					bad("invalid-derivation", msg)
-					return
+				if !vw.RulesDiffer {
+					if msg := checkDerivation(g, vw, st); msg != "" {
+						bad("invalid-derivation", msg)
+						return
+					}
 				}
 				if st.Res.Out == lrm.Accepted && !(st.Viable && st.CanNext) {
 					bad("accepts-non-sentence", "the parser accepts but the grammar does not derive this token string (Earley)")
@@ -188,6 +190,13 @@ func lrEval(w *Worker, c *GCase, id string) {
 	w.SampleEvery(w.Out.Counters["evaluations"], 4999, func() interface{} {
 		return map[string]interface{}{"grammar": key, "conflict_free": t.ConflictFree, "accepting_runs": accepts, "rejecting_runs": rejects, "depth": lrDepth(w, c)}
 	})
+}
+
+func redTextOf(g *ref.Grammar, vw *ygo.View, reds []int) []string {
+	if vw.RulesDiffer {
+		return []string{fmt.Sprintf("(rule numbers %v of a rule list that differs from the file)", reds)}
+	}
+	return redText(g, reds)
 }
 
 func redText(g *ref.Grammar, reds []int) []string {
